@@ -174,7 +174,7 @@ def build(x):
     BUF = "self.buffer@.len() >= B0.len() && self.buffer@.take(B0.len() as int) == B0, Self::tuples_ok(self.buffer@, B0.len() as int, old(self).variant, L0, R0)"
     nows = lambda t: re.sub(r'\s+', '', t)
     # T1: `let n = X.iter().rev().take_while(|(a, _)| P).count();` -> count loop from the top (P verbatim)
-    adv.sub('V-ITER', r'let (?P<n>\w+) = (?P<x>self\s*\.\s*\w+)\s*\.iter\(\)\s*\.rev\(\)\s*\.take_while\(\|\((?P<a>\w+), _\)\| (?P<p>[^)]*?)\)\s*\.count\(\);',
+    adv.sub('V-ITER', r'let (?P<n>\w+)(?:\s*:\s*[^=;]+?)? = (?P<x>self\s*\.\s*\w+)\s*\.iter\(\)\s*\.rev\(\)\s*\.take_while\(\|\((?P<a>\w+), _\)\| (?P<p>[^)]*?)\)\s*\.count\(\);',
             lambda m: (f"let mut {m.group('n')}: usize = 0;\n                loop\n                    invariant {m.group('n')} <= {nows(m.group('x'))}@.len(),\n"
                        f"                {{ if {m.group('n')} >= {nows(m.group('x'))}.len() {{ break; }} let {m.group('a')} = &{nows(m.group('x'))}[{nows(m.group('x'))}.len() - 1 - {m.group('n')}].0; if !({m.group('p')}) {{ break; }} {m.group('n')} += 1; }};"),
             detail='`let n = X.iter().rev().take_while(|(a, _)| P).count();` -> loop counting from the last element while P holds (P verbatim)', flags=re.S, must=True)
@@ -190,7 +190,7 @@ def build(x):
             lambda m: f"(match {m.group('x')}.last() {{ Some(__p) => {{ let {m.group('a')} = &__p.0; {m.group('p')} }} None => false }})",
             detail='`matches!(X.last(), Some((a, _)) if P)` -> `match X.last() { Some(p) => { let a = &p.0; P } None => false }`', must=True)
     # T4: `let m = X.iter().rev().take_while(|(a, _)| P).map(|(_, b)| { E }); Q.extend(m);` -> loop pushing E from the top while P holds
-    adv.sub('V-ITER', r'let (?P<m>\w+) = (?P<x>self\s*\.\s*\w+)\s*\.iter\(\)\s*\.rev\(\)\s*\.take_while\(\|\((?P<a>\w+), _\)\| (?P<p>[^)]*?)\)\s*\.map\(\|\(_, (?P<b>\w+)\)\| \{(?P<e>.*?)\}\);\s*(?P<q>self\.\w+)\.extend\((?P=m)\);',
+    adv.sub('V-ITER', r'let (?P<m>\w+)(?:\s*:\s*[^=;]+?)? = (?P<x>self\s*\.\s*\w+)\s*\.iter\(\)\s*\.rev\(\)\s*\.take_while\(\|\((?P<a>\w+), _\)\| (?P<p>[^)]*?)\)\s*\.map\(\|\(_, (?P<b>\w+)\)\| \{(?P<e>.*?)\}\);\s*(?://[^\n]*\n\s*)*(?P<q>self\.\w+)\.extend\((?P=m)\);',
             lambda m: (f"{{ let mut __t: usize = 0; let ghost __r2 = self.right@;\n                    loop\n"
                        f"                        invariant __t <= self.right@.len(), self.right@ == __r2, __r2.len() <= R0.len() && __r2 == R0.take(__r2.len() as int), 0 <= __li < L0.len() && L0[__li] == (lkey, lvalue), Key::obeys_eq_spec(), forall|a: Key, b: Key| #[trigger] a.eq_spec(&b) == (a == b), self.left@ == __l_in, self.last_left_key == __k_in, {FRAME},\n                            {BUF},\n"
                        f"                    {{ if __t >= {nows(m.group('x'))}.len() {{ break; }} let __p = &{nows(m.group('x'))}[{nows(m.group('x'))}.len() - 1 - __t]; let {m.group('a')} = &__p.0; if !({m.group('p')}) {{ break; }} let {m.group('b')} = &__p.1;\n"
